@@ -120,6 +120,9 @@ pub enum ProblemSpec {
 pub enum Term {
     Iterations(u32),
     Evaluations(u32),
+    /// `LessThanN::evaluations(evals) | LessThanN::iterations(iters)`: the loop runs while either
+    /// budget is left
+    Either { evals: u32, iters: u32 },
 }
 
 #[derive(Clone, Copy, Debug, PartialEq, Serialize, Deserialize)]
@@ -214,6 +217,7 @@ pub fn termination<P: Problem>(term: Term) -> (Box<dyn Condition<P>>, Arc<Atomic
     let inner = match term {
         Term::Iterations(n) => LessThanN::iterations(n),
         Term::Evaluations(b) => LessThanN::evaluations(b),
+        Term::Either { evals, iters } => LessThanN::evaluations(evals) | LessThanN::iterations(iters),
     };
     (Box::new(Counting { inner, tests: tests.clone(), trues: trues.clone() }), tests, trues)
 }
